@@ -107,7 +107,7 @@ pub struct TraceCase {
 
 fn op_strategy() -> BoxedStrategy<Op> {
     prop_oneof![
-        5 => (0usize..4, prop_oneof![3 => 0usize..12, 2 => 0usize..80]).prop_map(|(who, n)| Op::Cost { who, n }),
+        5 => (0usize..4, prop_oneof![6 => 0usize..12, 4 => 0usize..80, 1 => 0usize..1500]).prop_map(|(who, n)| Op::Cost { who, n }),
         2 => (0usize..4, 0usize..40).prop_map(|(who, n)| Op::Least { who, n }),
         2 => (0usize..4, 0usize..40).prop_map(|(who, k)| Op::Iter { who, k }),
         1 => (0usize..4).prop_map(|who| Op::Clone { who }),
@@ -118,7 +118,7 @@ fn op_strategy() -> BoxedStrategy<Op> {
 fn trace_strategy(_tier: Tier) -> BoxedStrategy<TraceCase> {
     (
         // traces with expensive runs anywhere, in particular at the very end
-        (proptest::collection::vec(prop_oneof![3 => 1u64..=4, 2 => 1u64..=40], 1..16), proptest::collection::vec(5u64..=40, 0..4))
+        (proptest::collection::vec(prop_oneof![1 => Just(0u64), 5 => 1u64..=4, 4 => 1u64..=40], 1..16), proptest::collection::vec(5u64..=40, 0..4))
             .prop_map(|(mut a, b)| {
                 a.extend(b);
                 a
@@ -131,13 +131,26 @@ fn trace_strategy(_tier: Tier) -> BoxedStrategy<TraceCase> {
         .boxed()
 }
 
+pub fn decode_trace(d: &mut crate::dec::Dec) -> TraceCase {
+    let trace = d.vec(1, 18, |d| if d.byte() % 8 == 0 { 0 } else if d.flag() { d.range(1, 4) } else { d.range(1, 40) });
+    let max_n = d.range(1, 8) as usize;
+    let extrapolate_to = if d.byte() % 4 == 0 { d.vec(1, 2, |d| d.pick(60)) } else { vec![] };
+    let history = d.vec(0, 13, |d| match d.pick(5) {
+        0 | 1 => Op::Cost { who: d.pick(4), n: if d.byte() % 8 == 0 { d.pick(1500) } else { d.pick(80) } },
+        2 => Op::Least { who: d.pick(4), n: d.pick(40) },
+        3 => Op::Iter { who: d.pick(4), k: d.pick(40) },
+        _ => Op::Clone { who: d.pick(4) },
+    });
+    TraceCase { trace, max_n, extrapolate_to, history }
+}
+
 fn check_trace(c: &TraceCase) -> CheckResult {
     let mut out = Outcome::default();
     let t = &c.trace;
     let mk = || wcet::Curve::from_trace(t.iter().map(|x| s(*x)), c.max_n);
     let cf = guard(mk).map_err(|e| format!("from_trace panicked: {}", e))?;
     let upto = t.len() + 4;
-    let base: Vec<u64> = guard(|| (0..=upto.max(90)).map(|n| su(cf.cost_of_jobs(n))).collect::<Vec<_>>())
+    let base: Vec<u64> = guard(|| (0..=upto.max(1500)).map(|n| su(cf.cost_of_jobs(n))).collect::<Vec<_>>())
         .map_err(|e| format!("cost_of_jobs panicked: {}", e))?;
     let mut late_run = false;
     for n in 0..=t.len() {
@@ -271,7 +284,7 @@ pub fn def() -> PropertyDef {
         ],
         subchecks: vec![
             subcheck("laws", (15_000, 300_000), law_strategy, check_laws),
-            subcheck("trace", (20_000, 400_000), trace_strategy, check_trace),
+            subcheck("trace", (20_000, 400_000), trace_strategy, check_trace).with_decoder(decode_trace, check_trace),
         ],
         extra: None,
     }
